@@ -63,6 +63,21 @@ def gen(seed, tier):
         per_shape(sh, out, rng, "str" if len(sh) == 2 else "i32")
     for sh in ([1, 1], [1, 1, 1], [1, 5, 1], [4, 1, 1, 2], [1, 1, 1, 1], [6], [1], [2, 6]):
         per_shape(sh, out, rng, "i64")
+    # larger element counts (blocked copies, doubling growth)
+    for sh in ([17], [33], [64], [100], [2, 17], [4, 8], [3, 5, 7]):
+        cnt = prod(sh)
+        a = arr(sh)
+        out.append(f"ravel {a}")
+        for t in factorizations(cnt)[:12]:
+            out.append(f"reshape {a} {lst(t)}")
+        for k in (cnt - 1, cnt + 1, 2 * cnt, 2 * cnt + 3, 3 * cnt - 1, 5 * cnt + 7, 7):
+            out.append(f"cycle_take {a} {z(k)}")
+            out.append(f"resize {a} {lst([k])}")
+        out.append(f"resize {a} {lst([3, cnt])}")
+        out.append(f"resize {a} {lst([cnt, 2, 2])}")
+        out.append(f"squeeze {a} n")
+        out.append(f"expand_dims {a} l0,-1")
+        out.append(f"atleast {a} z4")
     out.append("resize a0: l2")
     out.append("resize a0: l0")
     out.append("cycle_take a0: z3")
